@@ -97,8 +97,18 @@ impl StringPoolBuilder {
             ),
         };
         let mut lengths_and_refcounts = Vec::<(u32, u16)>::new();
-        while let Ok(length) = reader.read_u16::<LittleEndian>() {
-            let mut length = length as u32;
+        loop {
+            // The entries continue until the end of the stream; any other
+            // error must be reported rather than silently ending the pool.
+            let mut length = match reader.read_u16::<LittleEndian>() {
+                Ok(length) => length as u32,
+                Err(ref error)
+                    if error.kind() == io::ErrorKind::UnexpectedEof =>
+                {
+                    break;
+                }
+                Err(error) => return Err(error),
+            };
             let mut refcount = reader.read_u16::<LittleEndian>()?;
             if length == 0 && refcount > 0 {
                 length = ((refcount as u32) << 16)
